@@ -43,20 +43,25 @@ func init() {
 			"IncrementLinkCount/DecrementLinkCount/SetLinkCount and entity deletes; model predicts outcome and return values; structural monitor compares both sides raw and via the API after every transaction; " +
 			"(c) the same operations, one per transaction, over entities whose ids are 32766-32768 bytes long (legal ids that cannot be written as list keys on one side), judged without a model: an operation that returned an error changed nothing (whole-file dump), " +
 			"after every commit each plain link is on both sides or on neither, both sides of a ref-counted link hold the same positive count, no link names a missing entity, and an operation that reported success had its effect on the issuing side; " +
+			"Part (d): links written by the entity strategy (SetLinkedIds) on create and update of a host, the requested list with repeats and in any order (also as long as the current set and made of linked ids only): the link set is exactly the requested set, mirrored on the other side. " +
 			"non-trivial = distinct (side, current set, requested list) pairs with a non-empty symmetric difference or a missing target, plus distinct history op tuples",
-		Assumptions: []string{"negative SetLinkCount values are not generated (unspecified)"},
+		Assumptions: []string{"counts that are no counts (negative, beyond int32) must never be stored; the model-based histories use counts 0-3"},
 		Exhaustive:  func(t core.Tier) bool { return t == core.Thorough },
 		Plan: func(tier core.Tier, seed int64) int {
 			if tier == core.Thorough {
-				return c05SetCases + c05EdgeCases*20 + 60000
+				return c05SetCases + c05EdgeCases*20 + 60000 + c05LinkedCases*20
 			}
-			return c05SetCases + c05EdgeCases + 480
+			return c05SetCases + c05EdgeCases + 480 + c05LinkedCases
 		},
 		Run: func(c *core.Ctx, idx int) {
 			r := c.Rand()
 			nEdge := c05EdgeCases
 			if c.Tier == core.Thorough {
 				nEdge *= 20
+			}
+			if nHist := map[bool]int{false: 480, true: 60000}[c.Tier == core.Thorough]; idx >= c05SetCases+nEdge+nHist {
+				c05Linked(c, idx-c05SetCases-nEdge-nHist)
+				return
 			}
 			if idx >= c05SetCases && idx < c05SetCases+nEdge {
 				c05Edge(c, idx-c05SetCases)
